@@ -242,6 +242,8 @@ def damages_for(rng, data: bytes, scale: float) -> list[list]:
         out.extend(["flip", b] for b in range(first, nbits))
         out.extend(["cut", k] for k in range(n))
     else:
+        if n > 262144:
+            scale = scale / 12  # very large batches: every damaged read costs a CRC over megabytes
         out.extend(["flip", rng.randrange(first, nbits)] for _ in range(int(768 * scale)))
         cuts = {0, 1, 8, 11, 12, 16, 17, 20, 21, 60, 61, n - 1, n - 2}
         cuts.update(rng.randrange(n) for _ in range(int(256 * scale)))
@@ -260,7 +262,7 @@ def damages_for(rng, data: bytes, scale: float) -> list[list]:
             out.append(["setcrc", v, rng.randrange(refbatch.CRC_COVERED_START * 8, nbits)])
     magics = [v for v in range(256) if v != 2]
     if n > ENUM_LIMIT:
-        magics = rng.sample(magics, 16)
+        magics = rng.sample(magics, 16 if n <= 262144 else 3)
     out.extend(["magic", v] for v in magics)
     return out
 
@@ -315,6 +317,8 @@ def run_task(task: dict) -> dict:
             p += len(b)
         stats.inc("batches", nb)
         stats.inc("segment_bytes", len(segment))
+        if any(len(b) > 1048576 for b in blobs):
+            stats.inc("workload_batch_above_1MiB")
         with core.wall_backstop(600):
             # --- (1) intact sequential read-back from every source kind
             for kind in KINDS:
